@@ -241,7 +241,7 @@ structure PMsg where
 
 /-- arity of the records of the projection (tokens after the tag) -/
 def projArity : String → Option Nat
-  | "F" => some 6 | "M" => some 2 | "f" => some 11 | "x" => some 11 | "o" => some 1
+  | "F" => some 6 | "M" => some 3 | "f" => some 11 | "x" => some 11 | "o" => some 1
   | "er" => some 2 | "rr" => some 2 | "rn" => some 1 | "E" => some 2 | "v" => some 2
   | "S" => some 1 | "rpc" => some 5
   | _ => none
@@ -269,7 +269,7 @@ def projMsgs : List (String × List String) → List PMsg → List PMsg
   | [], acc => acc.reverse
   | (tag, a) :: rest, acc =>
     match tag, a, acc with
-    | "M", [fq, me], _ => projMsgs rest ({ fullName := fq, mapEntry := me == "1" } :: acc)
+    | "M", [fq, me, _], _ => projMsgs rest ({ fullName := fq, mapEntry := me == "1" } :: acc)
     | "f", a, m :: ms =>
       match mkPField false a with
       | some f => projMsgs rest ({ m with fields := m.fields ++ [f] } :: ms)
